@@ -52,6 +52,12 @@ pub enum Op {
     Commit(u8),
     Rollback(u8),
     DropTxn(u8),
+    /// the listener application sends a message to the client's receiving link; the client takes it and holds it
+    ListenerSend { size: u16 },
+    /// the client retires a held delivery under transaction t: 0 accept, 1 reject, 2 release
+    Retire { t: u8, pick: u8, how: u8 },
+    /// the client accepts a held delivery outside any transaction
+    PlainAccept { pick: u8 },
 }
 
 #[derive(Clone, Debug, Serialize, Deserialize, Hash)]
@@ -84,6 +90,9 @@ pub fn case_strategy() -> BoxedStrategy<Case> {
         3 => any::<u8>().prop_map(Op::Commit),
         2 => any::<u8>().prop_map(Op::Rollback),
         1 => any::<u8>().prop_map(Op::DropTxn),
+        3 => size().prop_map(|size| Op::ListenerSend { size }),
+        4 => (any::<u8>(), any::<u8>(), 0u8..3).prop_map(|(t, pick, how)| Op::Retire { t, pick, how }),
+        1 => any::<u8>().prop_map(|pick| Op::PlainAccept { pick }),
     ];
     (vec(op, 1..24), prop_oneof![Just(Finale::CloseController), Just(Finale::EndSession), Just(Finale::Nothing)], prop_oneof![Just(512u32), Just(4096)], any::<u64>())
         .prop_map(|(mut ops, finale, mfs, tokio_seed)| {
@@ -115,9 +124,41 @@ fn idx_of(m: &Msg) -> Option<(u32, usize)> {
 }
 
 /// the listener application: accepts links, receives and accepts every delivery, reports (link name, idx, len)
-async fn listener_app(mut ls: ListenerSessionHandle, tx: tokio::sync::mpsc::UnboundedSender<(String, Result<(u32, usize), String>)>) {
+type SendCmd = (u32, u16);
+
+async fn listener_app(
+    mut ls: ListenerSessionHandle,
+    tx: tokio::sync::mpsc::UnboundedSender<(String, Result<(u32, usize), String>)>,
+    send_rx: tokio::sync::mpsc::UnboundedReceiver<SendCmd>,
+    outcome_tx: tokio::sync::mpsc::UnboundedSender<(u32, String)>,
+) {
     let la = LinkAcceptor::builder().build();
+    let mut send_rx = Some(send_rx);
     while let Ok(le) = la.accept(&mut ls).await {
+        if let LinkEndpoint::Sender(mut s) = le {
+            // the link on which the listener application sends: outcomes are reported as they resolve
+            if let Some(mut rx) = send_rx.take() {
+                let outcome_tx = outcome_tx.clone();
+                tokio::spawn(async move {
+                    while let Some((idx, size)) = rx.recv().await {
+                        match s.send_batchable(make_msg(idx, size)).await {
+                            Ok(fut) => {
+                                let otx = outcome_tx.clone();
+                                tokio::spawn(async move {
+                                    let o = fut.await;
+                                    let _ = otx.send((idx, match o { Ok(o) => format!("{o:?}"), Err(e) => format!("Err({e:?})") }));
+                                });
+                            }
+                            Err(e) => {
+                                let _ = outcome_tx.send((idx, format!("SendErr({e:?})")));
+                            }
+                        }
+                    }
+                    std::future::pending::<()>().await;
+                });
+            }
+            continue;
+        }
         if let LinkEndpoint::Receiver(mut r) = le {
             let tx = tx.clone();
             tokio::spawn(async move {
@@ -148,6 +189,7 @@ pub struct Info {
     pub orphaned_with_posts: bool,
     pub multi_frame_post: bool,
     pub concurrent: bool,
+    pub retired: bool,
 }
 
 const T: Duration = Duration::from_secs(120);
@@ -161,11 +203,21 @@ pub async fn run_duo(c: &Case) -> Result<Info, String> {
     let mut cs = cs.map_err(|e| format!("HARNESS: begin: {e:?}"))?;
     let ls = ls.map_err(|e| format!("HARNESS: session accept: {e:?}"))?;
     let (tx, mut rx) = tokio::sync::mpsc::unbounded_channel();
-    let lapp = tokio::spawn(listener_app(ls, tx));
+    let (send_tx, send_rx) = tokio::sync::mpsc::unbounded_channel::<SendCmd>();
+    let (outcome_tx, mut outcome_rx) = tokio::sync::mpsc::unbounded_channel::<(u32, String)>();
+    let lapp = tokio::spawn(listener_app(ls, tx, send_rx, outcome_tx));
     let mut senders: Vec<Sender> = Vec::new();
     for k in 0..3 {
         senders.push(Sender::attach(&mut cs, format!("s{k}"), "q").await.map_err(|e| format!("HARNESS: sender attach: {e:?}"))?);
     }
+    // the client's receiving link (the listener application sends on it); deliveries are disposed of explicitly
+    let mut rcv = fe2o3_amqp::Receiver::builder().name("r0").source("q").auto_accept(false).attach(&mut cs).await.map_err(|e| format!("HARNESS: receiver attach: {e:?}"))?;
+    let mut held: Vec<(u32, fe2o3_amqp::link::delivery::Delivery<Body<Value>>)> = Vec::new();
+    // retirements per live transaction (parallel to `txns`): message indices whose outcome is due at commit
+    let mut retired: Vec<Vec<u32>> = Vec::new();
+    let mut outcome_never: Vec<u32> = Vec::new();
+    let mut outcome_seen: Vec<u32> = Vec::new();
+    let mut listener_idx: u32 = 1_000_000;
     let controller = Controller::attach(&mut cs, "ctrl").await.map_err(|e| format!("controller attach failed: {e:?}"))?;
     // model
     let mut txns: Vec<(Transaction<'_>, Vec<(u8, u32, usize)>)> = Vec::new();
@@ -204,6 +256,30 @@ pub async fn run_duo(c: &Case) -> Result<Info, String> {
             }
         }};
     }
+    macro_rules! expect_outcomes {
+        ($step:expr, $what:expr, $expected:expr) => {{
+            let mut expected: Vec<u32> = $expected;
+            expected.sort();
+            let mut got: Vec<u32> = Vec::new();
+            while let Ok((i, o)) = outcome_rx.try_recv() {
+                if outcome_never.contains(&i) {
+                    return Err(format!("step {} ({}): the listener's send of message #{} resolved ({}) although its retirement was rolled back / abandoned", $step, $what, i, o));
+                }
+                if outcome_seen.contains(&i) {
+                    return Err(format!("step {} ({}): the listener's send of message #{} resolved twice", $step, $what, i));
+                }
+                if o.starts_with("SendErr") {
+                    return Err(format!("step {} ({}): the listener's send of message #{} failed: {}", $step, $what, i, o));
+                }
+                outcome_seen.push(i);
+                got.push(i);
+            }
+            got.sort();
+            if got != expected {
+                return Err(format!("step {} ({}): the listener's sends that resolved in this step are {:?}, the model allows exactly {:?} (a retirement under a transaction takes effect at commit, never before and never after a rollback)", $step, $what, got, expected));
+            }
+        }};
+    }
     for (step, op) in c.ops.iter().enumerate() {
         match op {
             Op::Declare => {
@@ -217,6 +293,7 @@ pub async fn run_duo(c: &Case) -> Result<Info, String> {
                     return Err(format!("step {step}: declare returned transaction id {:?} which a live transaction already has", id));
                 }
                 txns.push((t, vec![]));
+                retired.push(vec![]);
                 if txns.len() > 1 {
                     info.concurrent = true;
                 }
@@ -256,11 +333,13 @@ pub async fn run_duo(c: &Case) -> Result<Info, String> {
                 }
                 let k = (*t as usize * txns.len()) >> 8;
                 let (txn, posts) = txns.remove(k);
+                let ret = retired.remove(k);
                 tokio::time::timeout(T, txn.commit()).await.map_err(|_| format!("step {step}: commit did not complete"))?.map_err(|e| format!("step {step}: commit failed: {e:?}"))?;
-                if !posts.is_empty() {
+                if !posts.is_empty() || !ret.is_empty() {
                     info.discharged_with_posts = true;
                 }
                 expect_step!(step, format!("commit of transaction {k}"), posts.clone());
+                expect_outcomes!(step, format!("commit of transaction {k}"), ret.clone());
             }
             Op::Rollback(t) => {
                 if txns.is_empty() {
@@ -268,12 +347,15 @@ pub async fn run_duo(c: &Case) -> Result<Info, String> {
                 }
                 let k = (*t as usize * txns.len()) >> 8;
                 let (txn, posts) = txns.remove(k);
+                let ret = retired.remove(k);
                 tokio::time::timeout(T, txn.rollback()).await.map_err(|_| format!("step {step}: rollback did not complete"))?.map_err(|e| format!("step {step}: rollback failed: {e:?}"))?;
                 never.extend(posts.iter().map(|p| p.1));
-                if !posts.is_empty() {
+                outcome_never.extend(ret.iter().copied());
+                if !posts.is_empty() || !ret.is_empty() {
                     info.discharged_with_posts = true;
                 }
                 expect_step!(step, format!("rollback of transaction {k}"), vec![]);
+                expect_outcomes!(step, format!("rollback of transaction {k}"), vec![]);
             }
             Op::DropTxn(t) => {
                 if txns.is_empty() {
@@ -281,12 +363,54 @@ pub async fn run_duo(c: &Case) -> Result<Info, String> {
                 }
                 let k = (*t as usize * txns.len()) >> 8;
                 let (txn, posts) = txns.remove(k);
+                let ret = retired.remove(k);
+                outcome_never.extend(ret.iter().copied());
                 drop(txn);
                 never.extend(posts.iter().map(|p| p.1));
                 if !posts.is_empty() {
                     info.orphaned_with_posts = true;
                 }
                 expect_step!(step, format!("drop of undischarged transaction {k}"), vec![]);
+            }
+            Op::ListenerSend { size } => {
+                let idx = listener_idx;
+                listener_idx += 1;
+                send_tx.send((idx, *size)).map_err(|_| "HARNESS: listener sender gone".to_string())?;
+                let d = tokio::time::timeout(T, rcv.recv::<Body<Value>>()).await.map_err(|_| format!("step {step}: the message sent by the listener did not arrive"))?.map_err(|e| format!("step {step}: recv failed: {e:?}"))?;
+                if idx_of(d.message()).map(|x| x.0) != Some(idx) {
+                    return Err(format!("step {step}: received {:?}, the listener sent #{idx}", idx_of(d.message())));
+                }
+                held.push((idx, d));
+                expect_step!(step, "listener send", vec![]);
+                expect_outcomes!(step, "listener send (held by the client)", vec![]);
+            }
+            Op::Retire { t, pick, how } => {
+                if txns.is_empty() || held.is_empty() {
+                    continue;
+                }
+                use fe2o3_amqp::transaction::TransactionRetirement;
+                let k = (*t as usize * txns.len()) >> 8;
+                let (idx, d) = held.remove((*pick as usize * held.len()) >> 8);
+                let txn = &txns[k].0;
+                let r = match how % 3 {
+                    0 => tokio::time::timeout(T, txn.accept(&mut rcv, &d)).await,
+                    1 => tokio::time::timeout(T, txn.reject(&mut rcv, &d, None)).await,
+                    _ => tokio::time::timeout(T, txn.release(&mut rcv, &d)).await,
+                };
+                r.map_err(|_| format!("step {step}: the transactional retirement did not complete"))?.map_err(|e| format!("step {step}: the transactional retirement failed: {e:?}"))?;
+                retired[k].push(idx);
+                info.retired = true;
+                expect_step!(step, "retirement under a transaction", vec![]);
+                expect_outcomes!(step, format!("retirement of #{idx} under transaction {k}"), vec![]);
+            }
+            Op::PlainAccept { pick } => {
+                if held.is_empty() {
+                    continue;
+                }
+                let (idx, d) = held.remove((*pick as usize * held.len()) >> 8);
+                tokio::time::timeout(T, rcv.accept(&d)).await.map_err(|_| format!("step {step}: accept did not complete"))?.map_err(|e| format!("step {step}: accept failed: {e:?}"))?;
+                expect_step!(step, "non-transactional accept", vec![]);
+                expect_outcomes!(step, format!("non-transactional accept of #{idx}"), vec![idx]);
             }
         }
     }
@@ -296,6 +420,9 @@ pub async fn run_duo(c: &Case) -> Result<Info, String> {
         info.orphaned_with_posts = true;
     }
     never.extend(live_posts);
+    for r in retired.drain(..) {
+        outcome_never.extend(r);
+    }
     for (t, _) in txns.into_iter() {
         // the application walks away from them without discharging (no rollback-on-drop either)
         std::mem::forget(t);
@@ -304,6 +431,7 @@ pub async fn run_duo(c: &Case) -> Result<Info, String> {
         Finale::CloseController => {
             tokio::time::timeout(T, controller.close()).await.map_err(|_| "finale: closing the controller link did not complete".to_string())?.map_err(|e| format!("finale: closing the controller link failed: {e:?}"))?;
             expect_step!("finale", "controller link closed with transactions live", vec![]);
+            expect_outcomes!("finale", "controller link closed with transactions live", vec![]);
             // the data links still work, non-transactionally
             let idx = next_idx;
             let o = tokio::time::timeout(T, senders[0].send(make_msg(idx, 5))).await.map_err(|_| "finale: send after closing the controller did not complete".to_string())?.map_err(|e| format!("finale: send after closing the controller failed: {e:?}"))?;
@@ -323,6 +451,8 @@ pub async fn run_duo(c: &Case) -> Result<Info, String> {
         }
     }
     drop(senders);
+    drop(held);
+    drop(rcv);
     drop(cs);
     drop(d);
     let _ = tokio::time::timeout(T, lapp).await;
@@ -452,7 +582,9 @@ pub async fn run_resource(c: &CaseR) -> Result<InfoR, String> {
     pb.map_err(|e| format!("HARNESS: {e}"))?;
     let ls = ls.map_err(|e| format!("HARNESS: session accept: {e:?}"))?;
     let (tx, mut rx) = tokio::sync::mpsc::unbounded_channel();
-    let lapp = tokio::spawn(listener_app(ls, tx));
+    let (_unused_send_tx, unused_send_rx) = tokio::sync::mpsc::unbounded_channel::<SendCmd>();
+    let (unused_outcome_tx, _unused_outcome_rx) = tokio::sync::mpsc::unbounded_channel::<(u32, String)>();
+    let lapp = tokio::spawn(listener_app(ls, tx, unused_send_rx, unused_outcome_tx));
     // data link (peer sends), control link
     const DH: u32 = 1;
     let mut ch_handle: u32 = 2;
@@ -987,7 +1119,7 @@ fn run(ctx: &ShardCtx, rep: &mut Report) {
     MAX_SHRINK_ITERS.store(400, std::sync::atomic::Ordering::Relaxed);
     pt_run(ctx, rep, "duo", ctx.budget(30_000, 1_500_000), case_strategy(), |c, obs| match guarded(|| run_sync(c.tokio_seed, run_duo(c))) {
         Ok(Ok(info)) => {
-            for (b, n) in [(info.discharged_with_posts, "duo:discharged-with-posts"), (info.orphaned_with_posts, "duo:orphaned-with-posts"), (info.multi_frame_post, "duo:multi-frame-post"), (info.concurrent, "duo:concurrent-transactions")] {
+            for (b, n) in [(info.discharged_with_posts, "duo:discharged-with-posts"), (info.orphaned_with_posts, "duo:orphaned-with-posts"), (info.multi_frame_post, "duo:multi-frame-post"), (info.concurrent, "duo:concurrent-transactions"), (info.retired, "duo:transactional-retirement")] {
                 if b {
                     obs.class(n);
                 }
